@@ -179,6 +179,18 @@ def monitor(spec, res, acc):
             if stage not in (1, 2, 3, 4):
                 acc.add("growth-stage", f"step {t}: growth stage {c['stage']!r} on day {c['dap']}", dict(t=t))
                 stage = min(max(stage, 1), 4)
+            # the stage in force today is the one the crop calendar gives for yesterday's adjusted
+            # time (calendar days or degree days since planting minus the germination delay)
+            py = steps.get(t - 1)
+            cr = tr.season_crop.get(sc)
+            if dap > 1 and py is not None and py["gs"] and py["sc"] == sc and cr is not None:
+                tadj = (py["dap"] - py["delayed_cds"]) if int(cr["CalendarType"]) == 1 else (py["gdd_cum"] - py["delayed_gdds"])
+                want = 1 if tadj <= cr["Canopy10Pct"] else 2 if tadj <= cr["MaxCanopy"] else 3 if tadj <= cr["Senescence"] else 4
+                cov["stage_checks"] += 1
+                if want != stage:
+                    acc.add("growth-stage", f"step {t}: irrigation used growth stage {stage}, the crop calendar gives stage "
+                            f"{want} (adjusted time {tadj!r}; 10 % canopy {cr['Canopy10Pct']}, max canopy {cr['MaxCanopy']}, "
+                            f"senescence {cr['Senescence']})", dict(t=t, used=stage, expected=want, tadj=float(tadj)))
             if sc in last_stage and stage < last_stage[sc] and dap != 1:
                 acc.add("growth-stage", f"step {t}: growth stage fell from {last_stage[sc]} to {stage}", dict(t=t))
             last_stage[sc] = stage
